@@ -407,7 +407,27 @@ def _fix_case(case: Dict[str, Any]) -> Dict[str, Any]:
             op["cutoff"] = 1_700_000_000_000 + 15
         ops.append(op)
     c["ops"] = ops
+    if case.get("tail_yields"):
+        c["yield_filter"] = tx_tail_yield_filter
     return c
+
+
+def tx_tail_yield_filter(op: str, path: str, phase: tuple) -> bool:
+    """The protocol yield points, and -- case["tail_yields"] -- EVERY storage operation a committer performs inside
+    Transaction.commit / delete_snapshot AFTER its MetadataManager.commit has released the metadata lock (the return or raise of
+    MetadataManager.commit is not the end of the commit: handlers, read-backs, rollbacks and cleanups follow, outside the lock;
+    another writer may run to completion between any two of those steps)."""
+    base = P.protocol_yield_filter(op, path, phase)
+    sc = P.S_current()
+    me = sc.me() if sc is not None else None
+    if me is None:
+        return base
+    st = sc.__dict__.setdefault("_c01_tail", {})
+    if op == "LockTry":
+        st[me.name] = False
+    elif op == "LockRel":
+        st[me.name] = True
+    return base or (st.get(me.name, False) and ("Transaction.commit" in phase or "SnapshotManager.delete_snapshot" in phase))
 
 
 def kind_of(op: Dict[str, Any], init_cur_model: int = 1) -> Tuple[str, Any]:
@@ -540,6 +560,125 @@ def _initial_rows_by_file(res: P.CaseResult) -> Dict[str, List[int]]:
         out[f] = [-(i + 1)]
     return out
 
+
+
+# ---------------------------------------------------------------------------------------------------- commit-point faults
+# Storage faults of every outcome kind at the pointer write (conditional-write S3), combined with schedules in which another
+# writer runs to completion between any two steps of the faulted committer -- including the steps of Transaction.commit that
+# FOLLOW the return / raise of MetadataManager.commit (case["tail_yields"]).
+PTR_FAULT_MODES = ["before",      # the request is not applied; the client gets an error that is not the store's refusal
+                   "after",       # the request is applied; the response is lost
+                   "inflight"]    # the client gives up; the request reaches the store later, at a scheduling point of its own
+PTR_FAULT_EXCS = ["timeout", "connect", "500", "connclosed", "503", "oserror", "reqtimeout"]
+TREQ = ["DS.Gen.GenCommit", "DS.Model.Commit", "DS.Model.FlipFault", "DS.Model.TxSettle"]
+
+
+def applied_pointer_writes(res: P.CaseResult) -> List[Optional[str]]:
+    """Whose version the STORE made current, in the store's order, whatever the clients were told: one entry per applied PUT of
+    the pointer = the committer that wrote the metadata file the new pointer content names (None: nobody of this run)."""
+    writers: Dict[str, str] = {}
+    for e in res.log:
+        if e["op"] == "write_file" and P.path_class(e["path"]) == "meta" and e["actor"].startswith("A"):
+            writers[e["path"].rsplit("/", 1)[-1]] = e["actor"]
+    out = []
+    for h in (res.store.history if res.store is not None else []):
+        if h["key"].endswith(P.HINT):
+            out.append(writers.get(h["body"].decode("utf-8", "replace").strip()))
+    return out
+
+
+def told(outcome: Tuple[str, str]) -> str:
+    """What the caller of commit() was told: 'success' | 'noop' | 'ambiguous' (AmbiguousCommitError: outcome unknown, nothing was
+    deleted) | 'failed' (any other exception)."""
+    st, d = outcome
+    if st == "ok":
+        return "noop" if d == "noop" else "success"
+    return "ambiguous" if d.startswith("AmbiguousCommitError") else "failed"
+
+
+def ptr_fault_oracle(case: Dict[str, Any], res: P.CaseResult) -> Optional[str]:
+    """Implementation-only judgement of C01 on a run with a storage fault at the commit point, from the store's own history of
+    the pointer and the final table (independent reader):
+      * a commit() that returned is reflected exactly once; one that raised anything but the ambiguous error is not reflected at
+        all; one that raised the ambiguous error is reflected at most once (acknowledged + ambiguous accounting);
+      * every data file referenced by a retained snapshot exists;
+      * the final table is the serial replay, in the store's order, of exactly the reflected commits; linear chain, strictly
+        increasing sequence numbers."""
+    if res.deadlock:
+        return f"deadlock: {res.deadlock}"
+    owners = applied_pointer_writes(res)
+    if any(o is None for o in owners):
+        return f"the pointer was set to a file no committer of this run wrote (store's pointer history: {owners})"
+    for a, oc in sorted(res.outcomes.items()):
+        if not a.startswith("A"):
+            continue
+        n, t = owners.count(a), told(oc)
+        if t == "success" and n != 1:
+            return (f"{a}'s commit was acknowledged but is reflected {n} time(s) in the version chain (pointer writes the store applied: {owners})")
+        if t in ("failed", "noop") and n != 0:
+            return (f"{a}'s commit {'raised ' + oc[1] if t == 'failed' else 'reported nothing to do'} -- a definite failure -- yet the store "
+                    f"applied its pointer write: the commit is reflected in the version chain (applied: {owners}; outcomes "
+                    f"{ {k: told(v) for k, v in sorted(res.outcomes.items()) if k.startswith('A')} })")
+        if t == "ambiguous" and n > 1:
+            return f"{a}'s commit (reported ambiguous) is reflected {n} times (applied: {owners})"
+    if "error" in res.final:
+        return f"final table unreadable: {res.final['error']}"
+    if res.final.get("missing"):
+        return (f"retained snapshots reference data files that no longer exist: {res.final['missing'][:3]} (applied pointer writes {owners}; "
+                f"outcomes { {k: told(v) for k, v in sorted(res.outcomes.items()) if k.startswith('A')} })")
+    return serial_oracle(case, res, flips=[o for o in owners if o is not None])
+
+
+def ptr_fault_case(ops: Any, lock: str, victim: str, mode: str, exc: str, nth: int = 1, clock: str = "tick") -> Dict[str, Any]:
+    return {"ops": ops, "clock": clock, "topology": "separate", "backend": "s3cas", "lock": lock, "tail_yields": True,
+            "s3_fault": {"op": "put_object", "cls": "hint", "actor": victim, "nth": nth, "when": mode, "exc": exc}}
+
+
+def ptr_fault_runs(ctx, quick: bool) -> List[Tuple[Dict[str, Any], Any, P.CaseResult]]:
+    """One request-level fault (not applied / applied, response lost / in flight, landing later; every error kind) at the pointer
+    write of either committer, under the real lease lock and under a lock that excludes nobody (conditional writes alone), with
+    the OTHER committer's whole commit placed at every step of the faulted one -- before the fault, between the fault and the
+    lock release, and between any two of the steps Transaction.commit performs after MetadataManager.commit has returned or
+    raised; plus random schedules of three / four committers."""
+    runs: List[Tuple[Dict[str, Any], Any, P.CaseResult]] = []
+    k = 0
+    opsets = OPSETS[:3] if quick else OPSETS
+    for oi, ops in enumerate(opsets):
+        for victim, other in (("A0", "A1"), ("A1", "A0")):
+            for mode in PTR_FAULT_MODES:
+                for lock in (("real", "grant_all") if (oi == 0 or not quick) else ("real",)):
+                    for nth in ((1,) if quick else (1, 2)):
+                        k += 1
+                        case = ptr_fault_case(ops, lock, victim, mode, PTR_FAULT_EXCS[k % len(PTR_FAULT_EXCS)], nth)
+                        lead = [] if victim == "A0" else [(0, victim)]
+                        base = _run(ctx, case, dev_chooser(dict(lead)), tag="c01s")
+                        runs.append((case, list(lead), base))
+                        seen = {tuple(base.schedule)}
+                        last = max([i for i, a in enumerate(base.schedule) if a == victim] + [0])
+                        for i in range(1, last + 2):
+                            dev = lead + [(i, other)]
+                            res = _run(ctx, case, dev_chooser(dict(dev)), tag="c01s")
+                            if tuple(res.schedule) in seen:
+                                continue
+                            seen.add(tuple(res.schedule))
+                            runs.append((case, dev, res))
+                            if mode == "inflight":
+                                # ... and the landing of the request right after the other committer's commit began
+                                js = [j for j in range(i + 1, len(res.schedule)) if "L" in res.enabled_at[j] and res.schedule[j] != "L"]
+                                for j in js[:1]:
+                                    dev2 = dev + [(j, "L")]
+                                    r2 = _run(ctx, case, dev_chooser(dict(dev2)), tag="c01s")
+                                    if tuple(r2.schedule) not in seen:
+                                        seen.add(tuple(r2.schedule))
+                                        runs.append((case, dev2, r2))
+    for i in range(12 if quick else 300):
+        ops = OPSETS3[i % len(OPSETS3)]
+        case = ptr_fault_case(ops, ctx.rng.choice(["real", "grant_all"]), f"A{ctx.rng.randrange(len(ops))}", ctx.rng.choice(PTR_FAULT_MODES),
+                              ctx.rng.choice(PTR_FAULT_EXCS), nth=ctx.rng.choice([1, 1, 2]), clock=ctx.rng.choice(["tick", "coarse", "frozen"]))
+        seed = ctx.rng.randrange(1 << 30)
+        res = _run(ctx, case, lambda sc, seed=seed: S.random_chooser(_r.Random(seed), 0.35), tag="c01s")
+        runs.append((case, [("random", seed)], res))
+    return runs
 
 # ---------------------------------------------------------------------------------------------------- driver
 def check_runs(ctx, name: str, runs: List[Tuple[Dict[str, Any], Any, P.CaseResult]]) -> None:
